@@ -99,3 +99,27 @@ def force_switch_to_current_branch_discards_pending():
         return s.kinds()
     finally:
         s.destroy()
+
+
+def squash_person_modifies_line_above_ai_block():
+    """D47: main has S1's lines 6-7 right below a person's line 5; on a branch the person (no agent involved) inserts a token into
+    line 5 and deletes line 4; `git merge --squash br`; commit => the person's line (now 4) was credited to S1 (fixed): the target side was blamed over
+    the empty range X..X, for which git blames the work tree, so S1's line numbers were shifted by the line removed above them."""
+    from .c02 import _mk
+    s = _mk("d47", files=1)
+    try:
+        h = [s.line("human") for _ in range(7)]
+        s.human_write("f.txt", h); s.commit_all("init")
+        a = [s.line("S1"), s.line("S1")]
+        s.ai_write("S1", "f.txt", h[:5] + a + h[5:]); s.commit_all("pre")
+        s.g("checkout", "-q", "-b", "br")
+        mod = s.line("human", "tok " + h[4])
+        s.human_write("f.txt", h[:3] + [mod] + a + h[5:]); s.commit_all("person-only")
+        s.g("checkout", "-q", "main")
+        s.g("merge", "--squash", "br")
+        s.g("commit", "-q", "-m", "squashed")
+        s.check_notes("w")
+        s.check_blame_tip("w", rule="C03")
+        return s.kinds()
+    finally:
+        s.destroy()
